@@ -6,8 +6,8 @@
    variables in the VM's evaluations); one case per description.  Optional target: ~6 minutes. *)
 From Coq Require Import ZArith List Bool String Lia.
 Import ListNotations.
-From QCE Require Import Base.Prelude Core.Model Core.Run C08.Tree C08.Model C08.Proofs Bridge.TreeOfOp C09.Stim C09.Model
-                        LibBuild.Model LibBuild.Cert LibBuild.StimBridge LibBuild.StimBridgeProofs LibBuild.StimBridgeCycles.
+From QCE Require Import Base.Prelude Core.Model Core.Run C08.Tree C08.Model C08.Proofs Bridge.TreeOfOp C09.Stim C09.Spec C09.Sem
+                        C09.Model C09.Proofs LibBuild.Model LibBuild.Cert LibBuild.StimBridge LibBuild.StimBridgeProofs LibBuild.StimBridgeCycles.
 From Gen Require Import Ident Classes Tables Layouts.
 Open Scope list_scope.
 Open Scope Z_scope.
@@ -40,4 +40,25 @@ Proof.
   intros L ch rf cycles Hin Hc D. pose proof layout_descs_checked as H. rewrite Forall_forall in H.
   apply (H D); [|exact Hc]. unfold layout_descs. apply in_flat_map. exists (L, ch). split; [exact Hin|].
   unfold D. destruct rf; simpl; auto.
+Qed.
+
+(* the record (C09_layout_record carried over) *)
+Lemma lay_state_length D : List.length (lay_state D) = List.length (r_data D).
+Proof. unfold lay_state, alt_state. now rewrite map_length, seq_length. Qed.
+
+Lemma in_all_layout_subchains L ch : In (L, ch) all_layout_subchains ->
+  In L shipped_layouts /\ In ch (sub_chains (chain_of (layout_name L))).
+Proof.
+  unfold all_layout_subchains. intros H. apply in_flat_map in H as (L' & HL & H). apply in_map_iff in H as (c & E & Hc).
+  injection E as -> ->. split; assumption.
+Qed.
+
+Theorem layouts_record_all_cycles : forall L ch rf cycles, In (L, ch) all_layout_subchains -> 0 <= cycles < two64 + 3 ->
+  let D := desc_of_layout L ch rf in
+  exec (gate_part (lib_export D (lay_state D) [] cycles)) = Some (protocol_record (lay_state D) [] (Z.to_nat cycles) rf, [], []).
+Proof.
+  intros L ch rf cycles Hin Hc D. destruct (layouts_all_cycles L ch rf cycles Hin Hc) as [_ S]. fold D in S.
+  destruct (in_all_layout_subchains L ch Hin) as [HL Hch].
+  refine (record_of_skeleton D (lay_state D) [] _ _ _ _ _ _ S).
+  apply (layout_record L ch rf (lay_state D) [] (Z.to_nat cycles) HL Hch); [apply lay_state_length | simpl; lia].
 Qed.
